@@ -1,6 +1,4 @@
-use dashu::base::{Abs, Gcd, Signed, UnsignedAbs};
-use dashu::integer::IBig;
-use dashu::integer::fast_div::ConstDivisor;
+use dashu::base::{Abs, Gcd, Signed};
 use divrem::*;
 use num_order::NumOrd;
 
@@ -838,20 +836,14 @@ pub(crate) fn modulus(x: Number, y: Number, arena: &mut Arena) -> Result<Number,
         functor_stub(mod_atom, 2)
     };
 
+    // the result has the sign of the divisor (n2 is non-zero)
     fn ibig_rem_floor(n1: &Integer, n2: &Integer) -> Integer {
-        let ring = ConstDivisor::new(n2.unsigned_abs());
-        let n1 = n1.clone();
+        let rem = Integer::from(n1 % n2);
 
-        if n2.is_negative() {
-            let unsigned_result = IBig::from(ring.reduce(n1).residue());
-
-            if unsigned_result.is_zero() {
-                unsigned_result
-            } else {
-                unsigned_result + n2
-            }
+        if !rem.is_zero() && rem.is_negative() != n2.is_negative() {
+            rem + n2
         } else {
-            IBig::from(ring.reduce(n1).residue())
+            rem
         }
     }
 
